@@ -69,6 +69,11 @@ func (s *server) Close(ctx context.Context) error {
 			conn, ok := value.(gracefulExit)
 			if !ok || conn.isIdle() {
 				value.(Connection).Close()
+				// closing an idle connection untracks it before Close returns;
+				// if it is still tracked it became busy meanwhile and will be closed by its handler
+				if _, tracked := s.connections.Load(key); tracked {
+					activeConn++
+				}
 			} else {
 				activeConn++
 			}
